@@ -21,6 +21,10 @@ type gen struct {
 	env *Env
 	vm  *otto.Otto
 	r   *rand.Rand
+	ctx []*otto.Otto // runtimes for the error identity cases, see makeContexts
+
+	deferPow   bool
+	pendingPow [][2]float64
 }
 
 // ---------- numbers ----------
@@ -969,8 +973,22 @@ var allUnary = []int{0, 1, 2, 3, 5, 6, 7, 8, 9, 13, 14, 15, 16, 20, 21, 22, 23, 
 func (g *gen) payloadSweeps() {
 	goA, scA := goArgs(), scriptArgs()
 	all := append(append([]parg{}, goA...), scA...)
+	// the type minima / maxima and the int32 / uint32 producers: used where the full list would
+	// only repeat the same conversion (Coq spends its time reading the case files)
+	var bnd []parg
+	for _, a := range all {
+		v := math.Abs(a.val)
+		if v >= 127 || a.val != math.Trunc(a.val) || math.IsNaN(a.val) || (a.gov == nil && strings.ContainsAny(a.js, "|~<>")) {
+			bnd = append(bnd, a)
+		}
+	}
+	exact := map[int]bool{0: true, 5: true, 8: true, 13: true, 31: true, 15: true, 7: true, 9: true}
 	for _, fn := range allUnary {
-		for _, a := range all {
+		list := bnd
+		if exact[fn] {
+			list = all
+		}
+		for _, a := range list {
 			g.payloadCase(fn, []parg{a}, false)
 		}
 	}
@@ -985,10 +1003,13 @@ func (g *gen) payloadSweeps() {
 	for _, a := range all {
 		for _, fn := range []int{10, 11} {
 			g.payloadCase(fn, []parg{a}, false)
-			g.payloadCase(fn, []parg{a, nzero}, false)
 			g.payloadCase(fn, []parg{nzero, a}, false)
 			g.payloadCase(fn, []parg{two, a, a}, false)
 		}
+	}
+	for _, a := range bnd {
+		g.payloadCase(10, []parg{a, nzero}, false)
+		g.payloadCase(11, []parg{a, nzero}, false)
 		g.payloadCase(12, []parg{a, two}, false)
 		g.payloadCase(12, []parg{two, a}, false)
 		g.payloadCase(12, []parg{a, a}, false)
@@ -1139,7 +1160,16 @@ func (g *gen) throwSweeps() {
 }
 
 // ---------- pow: subnormal results, the overflow boundary, x^n overflowing while x^-n is representable ----------
-func (g *gen) powCase(x, y float64) { g.mathCase(12, []jarg{numArg(x), numArg(y)}) }
+// the exact oracle of these cases is the most expensive thing Coq evaluates; the
+// sweep is therefore spread over the run (one case every few random ones) instead
+// of sitting in one shard
+func (g *gen) powCase(x, y float64) {
+	if g.deferPow {
+		g.pendingPow = append(g.pendingPow, [2]float64{x, y})
+		return
+	}
+	g.mathCase(12, []jarg{numArg(x), numArg(y)})
+}
 
 func (g *gen) powSweeps() {
 	for _, y := range []float64{-1021, -1022, -1023, -1024, -1025, -1026, -1050, -1072, -1073, -1074, -1075, -1076, -1077, -1100, -2000, 1022, 1023, 1024, 1025, 2000,
@@ -1212,20 +1242,187 @@ func (g *gen) powBoundaryRandom() {
 	g.powCase(x, y)
 }
 
+// ---------- class identity of raised errors, also in copied runtimes ----------
+const idProbe = `function __id(f) {
+	try { f(); return "0,1"; } catch (e) {
+		var C = [Error, EvalError, RangeError, ReferenceError, SyntaxError, TypeError, URIError];
+		var N = ["Error", "EvalError", "RangeError", "ReferenceError", "SyntaxError", "TypeError", "URIError"];
+		var id = 8, ok = 1;
+		for (var i = 6; i >= 0; i--) {
+			if (e instanceof C[i] && Object.getPrototypeOf(e) === C[i].prototype && e.constructor === C[i]) {
+				id = i + 1;
+				if (e.name !== N[i]) { ok = 0; }
+				break;
+			}
+		}
+		if (!(e instanceof Error)) { ok = 0; }
+		if (e.c13t !== undefined) { ok = 0; }
+		if (Object.prototype.toString.call(e) !== "[object Error]") { ok = 0; }
+		return id + "," + ok;
+	}
+}`
+
+const raiseSome = `(function () {
+	var n = 0, fs = [function () { decodeURI("%") }, function () { decodeURIComponent("%E0%A4%A") }, function () { encodeURI(String.fromCharCode(0xDC00)) },
+		function () { encodeURIComponent(String.fromCharCode(0xD800)) }, function () { isNaN(Object.create(null)) }, function () { Math.abs({valueOf: function () { return {} }, toString: function () { return {} }}) }];
+	for (var i = 0; i < fs.length; i++) { try { fs[i]() } catch (e) { n++ } }
+	return n;
+})()`
+
+const tamper = `(function () {
+	var C = [Error, EvalError, RangeError, ReferenceError, SyntaxError, TypeError, URIError];
+	for (var i = 0; i < C.length; i++) { C[i].prototype.name = "Tampered"; C[i].prototype.c13t = 1; }
+})()`
+
+var ctxNames = []string{"fresh runtime", "Copy() of a runtime that raised such errors", "copy of that copy", "Copy() whose original was tampered with afterwards"}
+
+// 0 fresh; 1 copy of a runtime that already raised URIError/TypeError; 2 copy of the copy;
+// 3 copy taken before the original's error prototypes were tampered with
+func (g *gen) makeContexts() {
+	must := func(vm *otto.Otto, src string) {
+		if _, err := vm.Run(src); err != nil {
+			panic(err)
+		}
+	}
+	fresh := otto.New()
+	must(fresh, idProbe)
+	base := otto.New()
+	must(base, idProbe)
+	must(base, raiseSome)
+	c1 := base.Copy()
+	must(c1, raiseSome)
+	c2 := c1.Copy()
+	base2 := otto.New()
+	must(base2, idProbe)
+	must(base2, raiseSome)
+	c3 := base2.Copy()
+	must(base2, tamper)
+	must(base2, raiseSome)
+	g.ctx = []*otto.Otto{fresh, c1, c2, c3}
+}
+
+func parseID(o Outcome) (string, string) {
+	switch {
+	case o.Panic != nil:
+		return "(9, 0)", fmt.Sprintf("!panic %v", o.Panic)
+	case o.Err != nil:
+		return "(9, 0)", "!probe failed " + o.Err.Error()
+	}
+	t := o.Val.String()
+	parts := strings.Split(t, ",")
+	if len(parts) != 2 {
+		return "(9, 0)", "!probe said " + t
+	}
+	names := []string{"nothing thrown", "Error", "EvalError", "RangeError", "ReferenceError", "SyntaxError", "TypeError", "URIError", "an error that is an instance of NO constructor of this runtime"}
+	id := int(parts[0][0] - '0')
+	if id < 0 || id > 8 {
+		return "(9, 0)", "!probe said " + t
+	}
+	return "(" + parts[0] + ", " + parts[1] + ")", names[id] + ", consistent=" + parts[1]
+}
+
+func (g *gen) strIdCase(fns []int, u []uint16, ctx int) {
+	expr := jsStringExpr(u, g.r.Intn(3) == 0)
+	for _, f := range fns {
+		expr = strFnNames[f] + "(" + expr + ")"
+	}
+	src := "__id(function () { return " + expr + " })"
+	obs, txt := parseID(RunJS(g.ctx[ctx], src))
+	fl := make([]string, len(fns))
+	for i, f := range fns {
+		fl[i] = fmt.Sprintf("%d", f)
+	}
+	g.env.Add(fmt.Sprintf("CStrId %s %s %d %s", Clist(fl), Cunits(u), ctx, obs), fmt.Sprintf("errid [%s] %s -> %s", ctxNames[ctx], src, txt), "errid:str", true)
+}
+
+func (g *gen) throwIdCase(fn int, vals []float64, k, kind, ctx int) {
+	var b strings.Builder
+	b.WriteString("__id(function () { function __L(i, v) { return {valueOf: function () { return v }, toString: function () { return '1' }} } return " + fnText(fn) + "(")
+	cq := make([]string, len(vals))
+	for i, v := range vals {
+		if i > 0 {
+			b.WriteString(", ")
+		}
+		if i == k {
+			b.WriteString("(" + throwers[kind] + ")")
+			cq[i] = Cdouble(1)
+		} else {
+			fmt.Fprintf(&b, "__L(%d, %s)", i, JSNum(v))
+			cq[i] = Cdouble(v)
+		}
+	}
+	b.WriteString(") })")
+	src := b.String()
+	obs, txt := parseID(RunJS(g.ctx[ctx], src))
+	g.env.Add(fmt.Sprintf("CThrowId %d %s %d %d %d %s", fn, Clist(cq), k, kind, ctx, obs), fmt.Sprintf("errid [%s] %s -> %s", ctxNames[ctx], src, txt), "errid:throw", true)
+}
+
+var malformedPct = []string{"%", "abc%4", "%4g", "%g4", "%C3%28", "%E0%A4%A", "%E0%A4", "%ED%A0%80", "%F4%90%80%80", "%80", "%BF", "%C0%80", "%FF", "%F8%88%80%80%80", "%E2%82%41",
+	"a%20b", "%E2%82%AC", "%3B", "plain", ""}
+var surrogateInputs = [][]uint16{{0xDC00}, {0xD800}, {0x41, 0xD800, 0x41}, {0xDBFF}, {0xDFFF, 0xD800}, {0xD800, 0xDC00}, {0x41}, {0xE9}}
+
+func (g *gen) errIdSweeps() {
+	for ctx := range g.ctx {
+		for _, t := range malformedPct {
+			g.strIdCase([]int{2}, Units(t), ctx)
+			g.strIdCase([]int{3}, Units(t), ctx)
+		}
+		for _, u := range surrogateInputs {
+			g.strIdCase([]int{0}, u, ctx)
+			g.strIdCase([]int{1}, u, ctx)
+		}
+		g.strIdCase([]int{1, 3}, []uint16{0x41, 0xD83D}, ctx)
+		g.strIdCase([]int{0, 2}, Units("é€"), ctx)
+		for _, fn := range []int{100, 101, 102, 103, 104, 105, 106, 108, 0, 13, 12, 4} {
+			for _, kind := range []int{0, 1, 3, 4} {
+				g.throwIdCase(fn, []float64{2, 3}, 0, kind, ctx)
+			}
+		}
+		for _, fn := range []int{10, 11, 12, 102} {
+			for _, kind := range []int{1, 3} {
+				g.throwIdCase(fn, []float64{2, 3, 4}, 1, kind, ctx)
+			}
+		}
+	}
+}
+
 func runC13(env *Env) {
 	env.Import = "Otto.C13.Corr"
-	env.Rule = "Math: every function over a pool of IEEE specials (NaN, +-0, +-Infinity, +-1, +-0.5 and neighbours, 2^52..2^53 integers, half-integers, subnormals, extremes), their neighbours and random bit patterns, with 0..6 arguments, also as strings/booleans/null/undefined/objects; pow and atan2 table cells and exact rational powers; valueOf call logs; inverse/identity relations, anchors, monotone pairs; isNaN/isFinite over a ToNumber pool; strings over ASCII (reserved, marks, %), 2/3-byte boundaries, BMP, astral and lone surrogates through chains of encode/decode/escape/unescape; decode/unescape on percent-encodings with ill-formed octet sequences and 1-2 random mutations. every function x every boundary in every payload representation (results of |0 >>>0 << ~ >> & ^, lengths, parseInt, literals; Go int/int8..int64/uint..uint64/float32/float64 at their type minima and maxima through vm.Set and vm.Call); pow with integer and half-integer exponents whose exact result is subnormal, at the overflow boundary, or whose x^n overflows while x^-n is representable (exact oracle); every Math and global function with an argument whose ToNumber/ToString throws (5 kinds) at every position, conversions logged; non-trivial = distinct case with a special/neighbour argument, an unusual argument count, or a string containing a non-ASCII unit or '%'"
+	env.Rule = "Math: every function over a pool of IEEE specials (NaN, +-0, +-Infinity, +-1, +-0.5 and neighbours, 2^52..2^53 integers, half-integers, subnormals, extremes), their neighbours and random bit patterns, with 0..6 arguments, also as strings/booleans/null/undefined/objects; pow and atan2 table cells and exact rational powers; valueOf call logs; inverse/identity relations, anchors, monotone pairs; isNaN/isFinite over a ToNumber pool; strings over ASCII (reserved, marks, %), 2/3-byte boundaries, BMP, astral and lone surrogates through chains of encode/decode/escape/unescape; decode/unescape on percent-encodings with ill-formed octet sequences and 1-2 random mutations. every function x every boundary in every payload representation (results of |0 >>>0 << ~ >> & ^, lengths, parseInt, literals; Go int/int8..int64/uint..uint64/float32/float64 at their type minima and maxima through vm.Set and vm.Call); pow with integer and half-integer exponents whose exact result is subnormal, at the overflow boundary, or whose x^n overflows while x^-n is representable (exact oracle); every Math and global function with an argument whose ToNumber/ToString throws (5 kinds) at every position, conversions logged; class identity (instanceof / prototype identity / constructor link against the running runtime's own constructors, tamper isolation) of every URIError / TypeError / thrown error these functions raise, in a fresh runtime, in Copy(), in a copy of a copy and in a copy whose original was tampered with; non-trivial = distinct case with a special/neighbour argument, an unusual argument count, or a string containing a non-ASCII unit or '%'"
 	g := &gen{env: env, vm: otto.New(), r: env.Rng}
 	r := env.Rng
 	g.pinned()
 	g.sweeps()
 	g.strSweeps()
 	g.payloadSweeps()
+	g.deferPow = true
 	g.powSweeps()
+	g.deferPow = false
 	g.throwSweeps()
-	for env.Count() < env.N {
+	g.makeContexts()
+	g.errIdSweeps()
+	for it := 0; env.Count() < env.N || len(g.pendingPow) > 0; it++ {
+		if len(g.pendingPow) > 0 && (it%8 == 0 || env.Count() >= env.N) {
+			xy := g.pendingPow[0]
+			g.pendingPow = g.pendingPow[1:]
+			g.mathCase(12, []jarg{numArg(xy[0]), numArg(xy[1])})
+			continue
+		}
 		switch k := r.Intn(100); {
-		case k < 1: // abrupt conversions at a random position
+		case k < 1 && r.Intn(2) == 0: // class identity of a raised error in a random runtime
+			ctx := r.Intn(len(g.ctx))
+			if r.Intn(3) == 0 {
+				g.throwIdCase(Pick(r, []int{100, 101, 102, 103, 104, 105, 106, 107, 108, 109, 0, 7, 10, 11, 12, 4}), []float64{2, 3, 4}, r.Intn(3), r.Intn(len(throwers)), ctx)
+			} else if r.Intn(2) == 0 {
+				u, _ := g.pctString()
+				g.strIdCase([]int{2 + r.Intn(2)}, u, ctx)
+			} else {
+				u := g.wfString(5)
+				i := r.Intn(len(u) + 1)
+				u = append(u[:i:i], append([]uint16{uint16(0xD800 + r.Intn(0x800))}, u[i:]...)...)
+				g.strIdCase([]int{r.Intn(2)}, u, ctx)
+			}
+
 			fn := Pick(r, []int{10, 11, 10, 11, 4, 12, 100, 101, 102, 103, 104, 105, 106, 107, 108, 109, 0, 13, 7})
 			n := r.Intn(4) + 1
 			vals := make([]float64, n)
